@@ -1,5 +1,6 @@
 SPECIFICATION Spec
 CONSTANTS
+  KeepHist = TRUE
   Dev = {"d1", "d2", "d3"}
   Ref = {"r1", "r2"}
   MaxRecords = 12
